@@ -34,6 +34,7 @@ META = dict(
 )
 LEAN_PROPS = ["TsdateVerif.Props.C05"]
 LEAN_BUILD = ["TsdateVerif.Model.EPRun"]
+TRANSLATORS = ["kernels"]     # Gen/Kernels.lean is regenerated from the source; Props re-prove `*_generated`
 ASSUMPTIONS = [
     "max_shape > 1 (API validation), 0 < min_step < 1",
     "runs in which the real code raises AssertionError are outside the invariant (counted, classified)",
